@@ -175,7 +175,7 @@ func (f *frame) mayBurnAll() bool {
 		if a.kind == 'V' || a.kind == 'Q' {
 			return true // UNSTAKEALL / STAKENUM fail the frame when there is no such miner
 		}
-		if a.kind == 'N' && (a.two || a.body.mayBurnAll()) {
+		if a.kind == 'N' && (a.two || createMayCollide || a.body.mayBurnAll()) {
 			return true
 		}
 	}
@@ -218,7 +218,7 @@ func (f *frame) need() uint64 {
 		case 'N':
 			g := a.body.need()
 			lo := g + g/32
-			if a.body.mayBurnAll() || a.two { // a CREATE2 may collide, and a collision takes all gas
+			if a.body.mayBurnAll() || a.two || createMayCollide { // a CREATE2 may collide, and a collision takes all gas
 				if 64*(n+k(cSimple)) > lo {
 					lo = 64 * (n + k(cSimple))
 				}
